@@ -118,6 +118,16 @@ impl<F: PrimeField> Model<F> {
         match e {
             Lx::V(i) => Self::add_term(r, self.h(*i), k),
             Lx::One => Self::add_term(r, MV::One, k),
+            Lx::Raw(kind, i) => Self::add_term(
+                r,
+                match kind {
+                    0 => MV::C(*i),
+                    1 => MV::L(*i),
+                    2 => MV::R(*i),
+                    _ => MV::O(*i),
+                },
+                k,
+            ),
             Lx::K(s) => Self::add_term(r, MV::One, k * self.sc(s)),
             Lx::Zero => {}
             Lx::Terms(ts, _) => {
